@@ -3,6 +3,7 @@ package checks
 import (
 	"encoding/hex"
 	"fmt"
+	"io"
 	"math/big"
 	"math/rand"
 	"sync"
@@ -261,3 +262,22 @@ func randScalar(rng *rand.Rand) *big.Int {
 		return randBig(rng, ref.R)
 	}
 }
+
+func newBytesReader(b []byte) *bytesReader { return &bytesReader{b: b} }
+
+// bytesReader is a minimal io.Reader over a byte slice (EOF reported separately).
+type bytesReader struct {
+	b []byte
+	i int
+}
+
+func (r *bytesReader) Read(p []byte) (int, error) {
+	if r.i >= len(r.b) {
+		return 0, errEOF
+	}
+	n := copy(p, r.b[r.i:])
+	r.i += n
+	return n, nil
+}
+
+var errEOF = io.EOF
